@@ -110,6 +110,11 @@ func (p *AV1Payloader) Payload(mtu uint16, payload []byte) (payloads [][]byte) {
 				// so that the next OBU is compared against them
 				currentPacketOBUHeader = obuHeader.ExtensionHeader
 			}
+		} else if needNewPacket {
+			// nothing is pending because the previous OBU was dropped (temporal delimiter,
+			// tile list): the decision to start a new packet must not be lost
+			startWithNewPacket = true
+			currentPacketOBUHeader = obuHeader.ExtensionHeader
 		}
 
 		// The temporal delimiter OBU, if present, SHOULD be removed when transmitting,
